@@ -98,6 +98,9 @@ type c12World struct {
 	del  [2][]c12Delivery
 	ids  [2]string
 	seq  int
+	// reent: sequence number whose live delivery to subscription 0 publishes one
+	// follow-up event of the same type from inside the handler (0: none armed)
+	reent int
 }
 
 func (w *c12World) restart() {
@@ -114,6 +117,11 @@ func (w *c12World) subscribe(i int) error {
 			return // the process is gone: nothing is observed any more
 		}
 		w.del[i] = append(w.del[i], c12Delivery{e.N, w.run})
+		if i == 0 && w.reent != 0 && e.N == w.reent {
+			w.reent = 0
+			w.seq++
+			Publish(w.bus, evA{N: w.seq})
+		}
 	})
 }
 
@@ -206,7 +214,18 @@ func c12History(H int, faults bool) {
 		max   Offset
 	}
 	for h := 0; h < H; h++ {
-		switch vPick(5) {
+		switch vPick(6) {
+		case 5:
+			// a publish whose delivery to subscription 0 publishes a follow-up event from inside the handler
+			// (only while subscription B is not live on this bus: with two live subscriptions a
+			// synchronous nested publish reaches the later handler before the outer event does,
+			// which is how synchronous dispatch works and not what the statement is about)
+			w.seq++
+			if !w.subd[1] {
+				w.reent = w.seq
+			}
+			Publish(w.bus, evA{N: w.seq})
+			w.reent = 0
 		case 0:
 			w.seq++
 			n := w.seq
@@ -261,10 +280,10 @@ func c12History(H int, faults bool) {
 	}
 }
 
-//verif:entry property=C12 tier=both bounds="every history of H steps out of {publish subscribed type, publish other type, SubscribeWithReplay id A / id B (once per bus), restart} on the memory stores, no fault; drain restart at the end" cover="no-fault" H_quick=4 H_thorough=5
+//verif:entry property=C12 tier=both bounds="every history of H steps out of {publish subscribed type, the same with a handler that publishes a follow-up event of that type, publish other type, SubscribeWithReplay id A / id B (once per bus), restart} on the memory stores, no fault; drain restart at the end" cover="no-fault" H_quick=4 H_thorough=5
 func harnessC12NoFault() { c12History(vParam("H", 4), false) }
 
-//verif:entry property=C12 tier=both bounds="as above with ONE fault: failure of the f-th store operation (append/read/save/load) or a crash right after the c-th store operation" cover="with-fault" H_quick=4 H_thorough=5
+//verif:entry property=C12 tier=both bounds="as above with ONE fault: failure of the f-th store operation (append/read/save/load) or a crash right after the c-th store operation" cover="with-fault" H_quick=3 H_thorough=5
 func harnessC12OneFault() { c12History(vParam("H", 3), true) }
 
 //verif:entry property=C12 tier=both bounds="a publisher goroutine (K events of the subscribed type) interleaved at every synchronisation point with a running SubscribeWithReplay over the memory stores, one event persisted beforehand; then a drain restart; every interleaving within the preemption bound" cover="interleaved" K_quick=2 K_thorough=2 preempt_quick=2 preempt_thorough=3 race=on
